@@ -81,7 +81,10 @@ func factOnEdge(op token.Token, c int64, edge int) (lower int64, excl []int64) {
 	return 0, nil
 }
 
-func ruleC08R1(c *Ctx) {
+func ruleC08R1(c *Ctx) { constIndexGuards(c, c.FuncsIn(pkgIndex)) }
+
+// constIndexGuards: every constant index into a slice is covered by dominating length facts.
+func constIndexGuards(c *Ctx, funcs []*ssa.Function) {
 	noShrink := func(f *ssa.Function) bool {
 		if f == nil || f.Pkg == nil {
 			return false
@@ -174,7 +177,7 @@ func ruleC08R1(c *Ctx) {
 		return lower
 	}
 	n := 0
-	for _, fn := range c.FuncsIn(pkgIndex) {
+	for _, fn := range funcs {
 		eachInstr(fn, func(in ssa.Instruction) {
 			var base, idx ssa.Value
 			switch x := in.(type) {
